@@ -2,7 +2,7 @@ import RaptorModel.Model.Basic
 /-!
 # Strength of connection (`raptor/strength.cpp`; the distributed `par_strength.cpp` must return the
 same global matrix). Rows are sorted with the diagonal entry first (the routines establish that
-layout). `big` is the sentinel `RAND_MAX`; comparisons are strict.
+layout). `big` is the sentinel for "no extreme yet" (`DBL_MAX`; `RAND_MAX` before fix f621273); comparisons are strict.
 -/
 namespace Raptor.Strength
 variable {K : Type}
